@@ -503,7 +503,7 @@ proof fn lemma_fails_push_root_child<V>(n: NfaBuilder<u8, V>, qs: Seq<u32>, c: u
 // the end of build_fails: from the loop invariants to the contract
 proof fn lemma_fails_finish<V>(n: NfaBuilder<u8, V>, b: NfaBuilder<u8, V>, qs: Seq<u32>)
     requires pctx(n), fails_inv(n, b, qs), bfs_inv(n, qs, qs.len() as int, Set::<u8>::empty()), n.states@.len() > 2,
-    ensures passes_frame(n, b), fails_ok(b, false), queue_ok(b, qs), b.outputs@ == n.outputs@, ac_fail(b),
+    ensures passes_frame(n, b), fails_ok(b, false), queue_ok(b, qs), b.outputs@ == n.outputs@, ac_fail(b), fail_suffix(b),
         forall|s: int| 0 <= s < n.states@.len() ==> (#[trigger] b.states@[s]).output_pos.is_none(),
 {
     reveal(pctx);
@@ -517,6 +517,7 @@ proof fn lemma_fails_finish<V>(n: NfaBuilder<u8, V>, b: NfaBuilder<u8, V>, qs: S
         lemma_fail_ok_same(n, b, s, b.states@[s].fail as int);
     }
     assert(ac_fail(b)) by { reveal(ac_fail); }
+    assert(fail_suffix(b));
     assert(nfa_links(b, false)) by {
         assert forall|s: int| 0 <= s < b.states@.len() && s != 1 && s != 0 implies ({
             let f = (#[trigger] b.states@[s]).fail as int;
@@ -611,7 +612,7 @@ proof fn lemma_outs_start<V>(n: NfaBuilder<u8, V>, qs: Seq<u32>)
 
 // the hypotheses of the output pass in one opaque bundle
 #[verifier::opaque]
-spec fn octx<V>(n: NfaBuilder<u8, V>, qs: Seq<u32>) -> bool { pctx(n) && queue_ok(n, qs) && fails_ok(n, true) && n.states@.len() <= u32::MAX as nat + 1 }
+spec fn octx<V>(n: NfaBuilder<u8, V>, qs: Seq<u32>) -> bool { pctx(n) && queue_ok(n, qs) && fails_ok(n, true) && fail_suffix(n) && n.states@.len() <= u32::MAX as nat + 1 }
 proof fn lemma_octx_entry<V>(n: NfaBuilder<u8, V>, qs: Seq<u32>, i: int)
     requires octx(n, qs), 0 <= i < qs.len(),
     ensures ({ let f = n.states@[qs[i] as int].fail as int; 2 <= qs[i] < n.states@.len() && 0 <= f < n.states@.len() && f != qs[i] && qs.len() + 2 == n.states@.len()
@@ -794,7 +795,36 @@ proof fn lemma_outs_finish<V>(n: NfaBuilder<u8, V>, b: NfaBuilder<u8, V>, qs: Se
 
 // ---- leftmost fail links (build_fails_leftmost): dead, or strictly shallower ----
 spec fn link_ok<V>(n: NfaBuilder<u8, V>, s: int, f: int) -> bool {
-    f == 1 || (0 <= f < n.states@.len() && nfa_depth(n, f) < nfa_depth(n, s))
+    f == 1 || (0 <= f < n.states@.len() && nfa_depth(n, f) < nfa_depth(n, s) && is_suffix(path(n, f), path(n, s)))
+}
+// link facts for the chase of build_fails_leftmost
+proof fn lemma_link_root<V>(n: NfaBuilder<u8, V>, t: int)
+    requires pctx(n), 2 <= t < n.states@.len(),
+    ensures link_ok(n, t, 0),
+{
+    lemma_depth_is_path_len(n, t);
+    lemma_pctx_len(n);
+    lemma_depth_is_path_len(n, 0);
+    assert(path(n, 0).len() == 0);
+    assert(is_suffix(path(n, 0), path(n, t)));
+    let p = nfa_parent(n, t);
+    assert(nfa_parent_ok(n, t, p)) by { reveal(pctx); }
+    lemma_path_child(n, p.0, p.1);
+}
+proof fn lemma_link_child<V>(n: NfaBuilder<u8, V>, s: int, f: int, c: u8)
+    requires pctx(n), 2 <= s < n.states@.len(), 0 <= f < n.states@.len(), f != 1, nfa_edges(n, s).contains_key(c), nfa_edges(n, f).contains_key(c),
+        is_suffix(path(n, f), path(n, s)), nfa_depth(n, f) < nfa_depth(n, s),
+    ensures link_ok(n, nfa_edges(n, s)[c] as int, nfa_edges(n, f)[c] as int),
+{
+    lemma_path_child(n, s, c);
+    lemma_path_child(n, f, c);
+    lemma_suffix_push(path(n, f), path(n, s), c);
+}
+proof fn lemma_link_trans<V>(n: NfaBuilder<u8, V>, s: int, f: int, g: int)
+    requires 0 <= f, is_suffix(path(n, f), path(n, s)), link_ok(n, f, g), g != 1,
+    ensures is_suffix(path(n, g), path(n, s)),
+{
+    lemma_suffix_trans(path(n, g), path(n, f), path(n, s));
 }
 #[verifier::opaque]
 spec fn lm_inv<V>(n: NfaBuilder<u8, V>, b: NfaBuilder<u8, V>, qs: Seq<u32>) -> bool {
@@ -828,6 +858,7 @@ proof fn lemma_lm_push_root_child<V>(n: NfaBuilder<u8, V>, qs: Seq<u32>, c: u8)
     let t = nfa_edges(n, 0)[c];
     lemma_pctx_len(n);
     lemma_path_child(n, 0, c);
+    lemma_link_root(n, t as int);
     let q2 = qs.push(t);
     assert forall|j: int| 0 <= j < q2.len() implies 2 <= #[trigger] q2[j] < n.states@.len() && link_ok(n, q2[j] as int, n.states@[q2[j] as int].fail as int) by {
         if j < qs.len() { assert(q2[j] == qs[j]); }
@@ -866,7 +897,7 @@ proof fn lemma_lm_set<V>(n: NfaBuilder<u8, V>, b: NfaBuilder<u8, V>, b2: NfaBuil
 }
 proof fn lemma_lm_finish<V>(n: NfaBuilder<u8, V>, b: NfaBuilder<u8, V>, qs: Seq<u32>)
     requires pctx(n), lm_inv(n, b, qs), bfs_inv(n, qs, qs.len() as int, Set::<u8>::empty()), n.states@.len() > 2,
-    ensures passes_frame(n, b), fails_ok(b, true), queue_ok(b, qs), b.outputs@ == n.outputs@,
+    ensures passes_frame(n, b), fails_ok(b, true), queue_ok(b, qs), b.outputs@ == n.outputs@, fail_suffix(b),
         forall|s: int| 0 <= s < n.states@.len() ==> (#[trigger] b.states@[s]).output_pos.is_none(),
 {
     reveal(pctx);
@@ -874,7 +905,12 @@ proof fn lemma_lm_finish<V>(n: NfaBuilder<u8, V>, b: NfaBuilder<u8, V>, qs: Seq<
     let len = n.states@.len() as int;
     assert forall|u: int| 2 <= u < len implies in_q(qs, u) by { lemma_all_in_q(n, qs, u); }
     lemma_q_count(n, qs);
-    assert forall|t: int| 0 <= t < len implies nfa_depth(b, t) == nfa_depth(n, t) by { lemma_path_same(n, b, t); }
+    assert forall|t: int| 0 <= t < len implies nfa_depth(b, t) == nfa_depth(n, t) && path(b, t) == path(n, t) by { lemma_path_same(n, b, t); }
+    assert(fail_suffix(b)) by {
+        assert forall|s: int| 2 <= s < b.states@.len() implies ({ let f = (#[trigger] b.states@[s]).fail as int; f == 1 || (0 <= f < b.states@.len() && is_suffix(path(b, f), path(b, s))) }) by {
+            lemma_lm_get(n, b, qs, s);
+        }
+    }
     assert(nfa_links(b, true)) by {
         assert forall|s: int| 0 <= s < b.states@.len() && s != 1 && s != 0 implies ({
             let f = (#[trigger] b.states@[s]).fail as int;
@@ -884,4 +920,136 @@ proof fn lemma_lm_finish<V>(n: NfaBuilder<u8, V>, b: NfaBuilder<u8, V>, qs: Seq<
         }
     }
     assert(queue_ok(b, qs)) by { reveal(q_basic); }
+}
+
+// ... and, for every kind, the record behind the output position of every handled state
+#[verifier::opaque]
+spec fn outs_sound<V>(n: NfaBuilder<u8, V>, b: NfaBuilder<u8, V>, qs: Seq<u32>, i: int) -> bool {
+    forall|j: int| 0 <= j < i ==> opos_rec_ok(n, b.outputs@, #[trigger] qs[j] as int, opt_n(b.states@[qs[j] as int].output_pos))
+}
+proof fn lemma_outs_sound_start<V>(n: NfaBuilder<u8, V>, qs: Seq<u32>)
+    ensures outs_sound(n, n, qs, 0),
+{ reveal(outs_sound); }
+proof fn lemma_outs_sound_step<V>(n: NfaBuilder<u8, V>, b: NfaBuilder<u8, V>, b2: NfaBuilder<u8, V>, qs: Seq<u32>, i: int)
+    requires octx(n, qs), outs_inv(n, b, qs, i), outs_sound(n, b, qs, i), 0 <= i < qs.len(), outs_step_rel(n, b, b2, qs, i),
+    ensures outs_sound(n, b2, qs, i + 1),
+{
+    reveal(outs_inv); reveal(outs_sound); reveal(octx);
+    let s = qs[i] as int; let f = n.states@[s].fail as int;
+    lemma_fail_earlier(n, qs, i);
+    let outs = b.outputs@; let outs2 = b2.outputs@;
+    assert forall|j: int| 0 <= j < i + 1 implies opos_rec_ok(n, outs2, #[trigger] qs[j] as int, opt_n(b2.states@[qs[j] as int].output_pos)) by {
+        let t = qs[j] as int;
+        if j < i {
+            assert(qs[j] != qs[i]);
+            assert(b2.states@[t] == b.states@[t]);
+            let o = opt_n(b.states@[t].output_pos);
+            assert(o <= outs.len());
+            if o != 0 {
+                assert(outs2[o - 1] == outs[o - 1]);
+                let q = choose|q: Seq<u8>| is_suffix(q, path(n, t)) && #[trigger] rec_of(n, q, outs[o - 1]);
+                assert(rec_of(n, q, outs2[o - 1]));
+            }
+            assert(opos_rec_ok(n, outs2, t, opt_n(b2.states@[t].output_pos)));
+        } else {
+            assert(t == s);
+            match n.states@[s].output {
+                Some(x) => {
+                    let k = outs.len() as int;
+                    let p = path(n, s);
+                    lemma_depth_is_path_len(n, s);
+                    assert(is_suffix(p, p));
+                    assert(is_registered(n, p));
+                    assert(outs2[k] == (Output { value: x.0, length: x.1@, parent: b.states@[f].output_pos }));
+                    assert(reg_out(n, p) == Some(x));
+                    assert(rec_of(n, p, outs2[k]));
+                    assert(opt_n(b2.states@[s].output_pos) == k + 1);
+                    let o = (k + 1) as nat;
+                    assert(outs2.len() == k + 1);
+                    assert(rec_of(n, p, outs2[o - 1]));
+                    assert(opos_rec_ok(n, outs2, s, o));
+                }
+                None => {
+                    let o = opt_n(b.states@[f].output_pos);
+                    if o != 0 {
+                        assert(f >= 2) by {
+                            if f < 2 {
+                                assert(!in_q(qs.take(i), f)) by {
+                                    if in_q(qs.take(i), f) { let jj = choose|jj: int| 0 <= jj < qs.take(i).len() && #[trigger] qs.take(i)[jj] == f; assert(qs[jj] == f); }
+                                }
+                                assert(b.states@[f].output_pos.is_none());
+                            }
+                        }
+                        let jf = choose|jf: int| 0 <= jf < qs.take(i).len() && #[trigger] qs.take(i)[jf] == f;
+                        assert(qs[jf] == f);
+                        assert(opos_rec_ok(n, outs, qs[jf] as int, opt_n(b.states@[qs[jf] as int].output_pos)));
+                        let q = choose|q: Seq<u8>| is_suffix(q, path(n, f)) && #[trigger] rec_of(n, q, outs[o - 1]);
+                        assert(is_suffix(path(n, f), path(n, s)));
+                        lemma_suffix_trans(q, path(n, f), path(n, s));
+                        assert(outs2 == outs);
+                        assert(rec_of(n, q, outs2[o - 1]));
+                    }
+                    assert(b2.states@[s].output_pos == b.states@[f].output_pos);
+                    assert(opos_rec_ok(n, outs2, s, o));
+                }
+            }
+        }
+    }
+}
+proof fn lemma_octx_facts<V>(n: NfaBuilder<u8, V>, qs: Seq<u32>)
+    requires octx(n, qs),
+    ensures pctx(n), queue_ok(n, qs), fail_suffix(n), trie_ok(n),
+{ reveal(octx); reveal(pctx); }
+proof fn lemma_pctx_path_same<V>(n: NfaBuilder<u8, V>, b: NfaBuilder<u8, V>, t: int)
+    requires pctx(n), passes_frame(n, b), 0 <= t < n.states@.len(),
+    ensures path(b, t) == path(n, t),
+{ reveal(pctx); lemma_path_same(n, b, t); }
+proof fn lemma_rec_same<V>(n: NfaBuilder<u8, V>, b: NfaBuilder<u8, V>, q: Seq<u8>, r: Output<V>)
+    requires passes_frame(n, b), trie_ok(n), rec_of(n, q, r),
+    ensures rec_of(b, q, r),
+{
+    assert forall|t: int| 0 <= t < n.states@.len() implies #[trigger] t_edges(b, t) == t_edges(n, t) by { }
+    lemma_walk_same_edges(b, n, q);
+    lemma_walk_range(n, q);
+}
+proof fn lemma_outs_root_none<V>(n: NfaBuilder<u8, V>, b: NfaBuilder<u8, V>, qs: Seq<u32>)
+    requires outs_inv(n, b, qs, qs.len() as int), queue_ok(n, qs),
+    ensures b.states@[0].output_pos.is_none(),
+{
+    reveal(outs_inv);
+    assert(!in_q(qs.take(qs.len() as int), 0)) by {
+        if in_q(qs.take(qs.len() as int), 0) { let j = choose|j: int| 0 <= j < qs.take(qs.len() as int).len() && #[trigger] qs.take(qs.len() as int)[j] == 0; assert(qs[j] == 0); }
+    }
+}
+proof fn lemma_outs_sound_get<V>(n: NfaBuilder<u8, V>, b: NfaBuilder<u8, V>, qs: Seq<u32>, s: int)
+    requires outs_sound(n, b, qs, qs.len() as int), in_q(qs, s),
+    ensures opos_rec_ok(n, b.outputs@, s, opt_n(b.states@[s].output_pos)),
+{
+    reveal(outs_sound);
+    let j = choose|j: int| 0 <= j < qs.len() && #[trigger] qs[j] == s;
+}
+proof fn lemma_outs_sound_finish<V>(n: NfaBuilder<u8, V>, b: NfaBuilder<u8, V>, qs: Seq<u32>)
+    requires octx(n, qs), outs_inv(n, b, qs, qs.len() as int), outs_sound(n, b, qs, qs.len() as int),
+    ensures fail_suffix(b), opos_sound(b),
+{
+    lemma_octx_facts(n, qs);
+    lemma_outs_frame(n, b, qs, qs.len() as int);
+    assert forall|t: int| 0 <= t < n.states@.len() implies path(b, t) == path(n, t) by { lemma_pctx_path_same(n, b, t); }
+    assert(fail_suffix(b)) by {
+        assert forall|s: int| 2 <= s < b.states@.len() implies ({ let f = (#[trigger] b.states@[s]).fail as int; f == 1 || (0 <= f < b.states@.len() && is_suffix(path(b, f), path(b, s))) }) by {
+            assert(b.states@[s].fail == n.states@[s].fail);
+            let f0 = (n.states@[s]).fail as int;
+        }
+    }
+    lemma_outs_root_none(n, b, qs);
+    assert forall|s: int| 0 <= s < b.states@.len() && s != 1 implies opos_rec_ok(b, b.outputs@, s, opt_n((#[trigger] b.states@[s]).output_pos)) by {
+        let o = opt_n(b.states@[s].output_pos);
+        if o != 0 {
+            assert(s != 0);
+            assert(in_q(qs, s));
+            lemma_outs_sound_get(n, b, qs, s);
+            let q = choose|q: Seq<u8>| is_suffix(q, path(n, s)) && #[trigger] rec_of(n, q, b.outputs@[o - 1]);
+            lemma_rec_same(n, b, q, b.outputs@[o - 1]);
+        }
+    }
 }
